@@ -4,7 +4,7 @@ from harness.core import Sub, Fail
 from harness.ref import refcrc
 
 RULE = ('cases are byte strings (hex). exhaustive sub-check: every string of length 0,1,2 (65 793); generated: '
-        'random strings 0..4096 bytes, runs of one byte, strings ending in every byte value; '
+        'random strings 0..4096 bytes, runs of one byte, strings ending in every byte value, long inputs (4 KiB..64 KiB, thorough 1 MiB) around power-of-two sizes; '
         'non-trivial = length >= 1; distinct = distinct byte string')
 ASSUMPTIONS = ['harness/ref/refcrc.py bitwise definitions (self-checked against the "123456789" check values)']
 
@@ -24,6 +24,43 @@ def check(case):
     if crc32c(data) != r32.to_bytes(4, 'little'):
         return Fail('crc32c/default-byteorder', 'default byte order is not little-endian')
     return None
+
+
+def check_long(case):
+    """long inputs described compactly: n bytes of a SHA-256 counter stream (or one repeated byte); reference = table-driven
+    implementation generated from the bitwise definition (refcrc self-checks it against the bitwise loops)"""
+    import hashlib
+    from pytoniq_core.crypto.crc import crc16, crc32c
+    n = case['n']
+    if 'fill' in case:
+        data = bytes([case['fill']]) * n
+    else:
+        out = bytearray()
+        c = 0
+        while len(out) < n:
+            out += hashlib.sha256(b'c18/%d/%d' % (case['seed'], c)).digest()
+            c += 1
+        data = bytes(out[:n])
+    forms = [('bytes', data)]
+    if case.get('as') == 'bytearray':
+        forms.append(('bytearray', bytearray(data)))
+    for name, d in forms:
+        if crc16(d) != refcrc.crc16_xmodem_fast(data).to_bytes(2, 'big'):
+            return Fail(f'crc16/mismatch/long-input', f'{name} of {n} bytes')
+        r32 = refcrc.crc32c_fast(data)
+        for order in ('little', 'big'):
+            if crc32c(d, order) != r32.to_bytes(4, order):
+                return Fail(f'crc32c/mismatch-{order}/long-input', f'{name} of {n} bytes')
+    return None
+
+
+def enum_long(tier):
+    sizes = [4095, 4096, 4097, 8191, 8192, 8193, 16384, 32767, 32768, 32769, 65535, 65536, 65537]
+    if tier != 'quick':
+        sizes += [131071, 131072, 131073, 262144 + 1, 1048575, 1048576, 1048577]
+    for i, n in enumerate(sizes):
+        yield {'n': n, 'seed': i, 'as': 'bytearray' if i % 3 == 0 else 'bytes'}
+        yield {'n': n, 'fill': (0x00, 0xFF, 0xA5)[i % 3]}
 
 
 def enum_short(tier):
@@ -65,6 +102,8 @@ SUBCHECKS = [
         shards=(16, 16), exhaustive=True),
     Sub('structured', check, enum=enum_structured, classify=classify, nontrivial=lambda c: len(c['data']) >= 2,
         shards=(4, 4)),
+    Sub('long-inputs', check_long, enum=enum_long, shards=(13, 16), classify=lambda c: ['len=%d' % c['n']],
+        note='4095..65537 bytes (thorough: up to 1 MiB + 1) around block-size boundaries; bytes and bytearray'),
     Sub('random', check, strategy=strat, classify=classify, nontrivial=lambda c: len(c['data']) >= 2,
         n=(3000, 200000), shards=(8, 32)),
 ]
